@@ -441,7 +441,27 @@ func runDriverTop(c *harness.Ctx) harness.Result {
 			}
 		}
 	}
-	out, ui, rr := drv.Report(map[string]*profile.Profile{"p": p}, []string{"p"}, map[string]bool{"top": true, "trim": false}, map[string]string{"unit": target}, nil, nil, nil)
+	// -mean: every entry is a mean per event (the first column counts the events); the unit of the
+	// report is chosen for the means that are printed, not for the sums behind them
+	meanMode := !signed && wantPct == nil && !explicit && r.Intn(3) == 0
+	topBools, topStrs := map[string]bool{"top": true, "trim": false}, map[string]string{"unit": target}
+	if meanMode {
+		p.SampleType = append([]*profile.ValueType{{Type: "events", Unit: "count"}}, p.SampleType...)
+		for i, smp := range p.Sample {
+			lim := smp.Value[0]
+			if lim > 5000 {
+				lim = 5000
+			}
+			n := 1 + r.Int63n(lim) // at least one unit per event
+			smp.Value = []int64{n, smp.Value[0]}
+			vals[fmt.Sprintf("fn%d", i)] = smp.Value[1] / n
+		}
+		topBools["mean"] = true
+		topStrs["sample_index"] = "t"
+		desc += fmt.Sprintf(" shown as means %v", vals)
+		c.Stat("driver_tops_mean", 1)
+	}
+	out, ui, rr := drv.Report(map[string]*profile.Profile{"p": p}, []string{"p"}, topBools, topStrs, nil, nil, nil)
 	if rr.Panic != "" {
 		return harness.Violation("%s: panic %s", desc, rr.Panic)
 	}
@@ -478,6 +498,9 @@ func runDriverTop(c *harness.Ctx) harness.Result {
 				}
 			}
 		}
+		if f[0] == "0" && v != 0 && !explicit {
+			return harness.Violation("%s: %s has the value %d but is printed as 0: with -unit=minimum the unit of the report is chosen so that its smallest entry still shows (at least 0.01 of the unit)\n%s", desc, f[len(f)-1], v, out)
+		}
 		if f[0] == "0" {
 			shown = reportUnit
 			if shown == nil && explicit {
@@ -507,7 +530,7 @@ func runDriverTop(c *harness.Ctx) harness.Result {
 		return harness.Violation("%s: %d of 3 entries found in the report\n%s", desc, found, out)
 	}
 	// the same values divided by -divide_by and printed one by one (-traces picks a unit per value)
-	if !explicit {
+	if !explicit && !meanMode {
 		div := []float64{2, 1000, 1024, 0.5, 3}[r.Intn(5)]
 		tout, tui, trr := drv.Report(map[string]*profile.Profile{"p": p}, []string{"p"}, map[string]bool{"traces": true}, map[string]string{"unit": "minimum"}, nil, map[string]float64{"divide_by": div}, nil)
 		if trr.Panic != "" || trr.Err != nil {
